@@ -300,6 +300,29 @@ def cases(rng, tier, stats):
         nt = stop is not None or any(o[0] in ("mkdir", "rmdir", "readdir") for o in ops)
         out.append(C.Case("fs-ops", lines, default_compare, oracle, info={"ops": [(o[0], o[1][6:]) for o in ops], "expected": exp, "stops_at": stop, "stop_line": stop_line,
                                                                            "run_index": len(lines) - 1}, nontrivial=nt))
+    # names that share a stem: writing `report.txt` must not touch `report.tmp`, `report`, `report.txt.bak`, `report.txt~` … (files or
+    # directories) — a write touches exactly the path it is given; each sibling is written first, the target second, then everything
+    # is read back and the directory is listed (the `fs=1` listing is compared with the model's tree as well)
+    sibs = ["report.tmp", "report", "report.txt.bak", "report.txt~", "report.bak", ".report.txt", "report.txt.tmp", "report.TXT", "repor", "report.t"]
+    nsb = 0
+    for sib in sibs:
+        for kind in ("file", "dir"):
+            for order in (0, 1):
+                d = "@ROOT@/কাজ"
+                mk = [("expr", G.call(FN["mkdir"], G.s(d)))]
+                a = [("expr", G.call(FN["write"], G.s(f"{d}/{sib}"), G.s("পাশের")))] if kind == "file" else [("expr", G.call(FN["mkdir"], G.s(f"{d}/{sib}")))]
+                b = [("expr", G.call(FN["write"], G.s(f"{d}/report.txt"), G.s("মূল")))]
+                body = mk + (a + b if order == 0 else b + a) + [("expr", G.call(FN["write"], G.s(f"{d}/report.txt"), G.s("মূল-২"))),
+                        ("print", G.call(FN["read"], G.s(f"{d}/report.txt"))),
+                        ("print", G.call(FN["kind"], G.s(f"{d}/{sib}"))),
+                        ("print", G.call("_লিস্ট-লেন", G.call(FN["readdir"], G.s(d))))]
+                if kind == "file":
+                    body.append(("print", G.call(FN["read"], G.s(f"{d}/{sib}"))))
+                src = G.source(body + [("print", G.s("শেষ"))], "lines")
+                lines = ["RESET", run_req(src, fs=1)]
+                out.append(C.Case("stem-siblings", lines, default_compare, lambda case, impl, model: [], info={"src": src[-300:], "sibling": sib, "kind": kind, "run_index": 1, "expected": []}))
+                nsb += 1
+    stats["stem_siblings"] = nsb
     # wrong argument shapes, systematically: every argument tuple of length 0..3 over {path of a file, path of a directory,
     # path below a missing directory, number, list} for the seven file-system built-ins, on a fixed small tree
     import itertools
